@@ -2,6 +2,7 @@ import RsslVerif.Spec.Roundtrip
 import RsslVerif.Lemmas.FmtParseTables
 import RsslVerif.Lemmas.RoundtripThm
 import RsslVerif.Lemmas.RoundtripFull7
+import RsslVerif.Lemmas.TArgClosed
 import RsslVerif.Lemmas.StmtRT4
 import RsslVerif.Lemmas.DefRT2
 import RsslVerif.Lemmas.LiteralText
@@ -491,6 +492,81 @@ theorem eot_parenthesises_from_shift : eotExprPrec = binPrec .RightShift ∧ eot
     ∀ op : BinOp, needParen (binPrec op) eotExprPrec eotExprSide = decide (binPrec .RightShift ≤ binPrec op) := by
   refine ⟨by decide, by decide, fun op => ?_⟩
   cases op <;> decide
+
+/-! ## A printed template argument is closed (seeded mutant C09-6)
+
+`Lemmas/TArgClosed.lean`: `scan a p ts` walks a token list with a bracket counter (`p` = open `(` `[` `{`, `a` = open `<`
+outside those); it fails on a `>` outside all brackets that closes nothing, on a `,` outside all brackets and on
+unbalanced parentheses.  Inside parentheses `<`, `>`, `,` are ordinary operators. -/
+open RsslVerif.Lemmas.TArgClosed in
+/-- **template_argument_closed.** For every expression-or-type tree (expression of any node kind at any depth — conditionals,
+comma, assignments, relational and shift operators, casts, nested template calls, `sizeof` — or a type id with modifiers,
+nested template arguments and declarators) the tokens `format_expression_or_type` prints are invisible to the bracket
+scanner in **every** state and in front of every continuation: no `>`, `>=`, `>>`, `>>=` and no `,` stands outside
+brackets, and every `<` outside parentheses (a nested template argument list) is closed inside the entry.  So the angle
+brackets around a template argument list stay matched and the list has as many entries as the tree.  Induction over the
+six mutually recursive tree types; the only fact about the code it rests on is the generated pair
+`(eotExprPrec, eotExprSide)` through `eot_bare_prec` (what is printed bare there binds tighter than `<<` / `>>`) — a
+formatter that prints a conditional or a relational operator bare in that position (seeded mutant C09-6) has no such pair:
+the extractor refuses it and this theorem has nothing to stand on; `bare_conditional_not_closed` is the witness. -/
+theorem template_argument_closed (a : TArg) (fol : Bool) (na np : Nat) (rest : List Tok) :
+    scan na np (toks (fmtEOT a fol) ++ rest) = scan na np rest :=
+  pArg a fol na np rest (by simp [Mode.ok])
+
+open RsslVerif.Lemmas.TArgClosed in
+/-- the same for a whole printed list `<a, b, c>` (`format_template_type_args` / `format_type_layout`): in every state
+the scanner leaves the list as it entered it — the `<` that opens it is closed by the `>` that ends it, whatever the entries -/
+theorem template_argument_list_closed (l : TArgs) (fol : Bool) (na np : Nat) (rest : List Tok) :
+    scan na np (toks (fmtTArgs l fol) ++ rest) = scan na np rest :=
+  pTArgs l fol na np rest (by simp [Mode.ok])
+
+open RsslVerif.Lemmas.TArgClosed in
+/-- on its own: the entry scans to "nothing open", and between its angle brackets the closing one matches the opening one -/
+theorem template_argument_brackets_match (a : TArg) (fol : Bool) :
+    scan 0 0 (toks (fmtEOT a true)) = some 0 ∧
+    scan 0 0 (.lt true :: (toks (fmtEOT a true) ++ [.gt fol])) = some 0 := by
+  constructor
+  · have := template_argument_closed a true 0 0 []
+    simpa [scan] using this
+  · have := template_argument_closed a true 1 0 [.gt fol]
+    simp only [scan, cls, if_true]
+    rw [this]
+    simp [scan, cls]
+
+/-- **the threshold the code uses is low enough**: at `(eotExprPrec, eotExprSide)` the conditional, the comma, every
+assignment, every relational and both shift operators are parenthesised (all the operators whose spelling contains `<`
+or `>` or `,`, and all the nodes that print such an operand bare) -/
+theorem eot_threshold_closes :
+    needParen precTernaryConditional eotExprPrec eotExprSide = true ∧
+    (∀ op : BinOp, (binToks op).any (fun t => t.isLt || t.isGt || t == .p .Comma) = true →
+      needParen (binPrec op) eotExprPrec eotExprSide = true) ∧
+    (∀ op : BinOp, precTernaryConditional ≤ binPrec op → needParen (binPrec op) eotExprPrec eotExprSide = true) := by
+  refine ⟨by decide, fun op => ?_, fun op => ?_⟩ <;> cases op <;> decide
+
+/-- `c > 0 ? a : b`, the argument of the seeded mutant's demonstration `g<(c > 0 ? a : b)>(x)` -/
+def condGreater : XExpr := .tern (.bin .GreaterThan (.id "c") (.lit ⟨.IntUntyped, false, 0⟩)) (.id "a") (.id "b")
+
+open RsslVerif.Lemmas.TArgClosed in
+/-- **bare_conditional_not_closed** (why the threshold matters; what seeded mutant C09-6 prints): the conditional
+`c > 0 ? a : b` printed *without* parentheses is not closed — the scanner stops at its `>` — whereas what the model of
+the current code prints, `(c > 0 ? a : b)`, is (an instance of `template_argument_closed`, evaluated) -/
+theorem bare_conditional_not_closed :
+    scan 0 0 (toks (fmtExprX condGreater)) = none ∧
+    scan 1 0 (toks (fmtExprX condGreater) ++ [.gt true]) ≠ scan 1 0 [.gt true] ∧
+    scan 0 0 (toks (fmtEOT (.e condGreater) true)) = some 0 := by
+  refine ⟨by decide, by decide, by decide⟩
+
+/-- non-vacuity: `g<f<a>(x), (b > c ? a : b), vector<float, 4>>` — a nested template call printed bare (its `<` `>` are
+brackets of the entry), a parenthesised conditional with `>`, a type with a list of its own -/
+def sampleTArgs : TArgs :=
+  .cons (.e (.call (.id "f") (.cons (.e (.id "a")) .nil) (.cons (.id "x") .nil)))
+    (.cons (.e (.tern (.bin .GreaterThan (.id "b") (.id "c")) (.id "a") (.id "b")))
+      (.cons (.t (.mk [] "vector" (.cons (.t (.mk [] "float" .nil .empty)) (.cons (.e (.lit ⟨.IntUntyped, false, 4⟩)) .nil)) .empty))
+        .nil))
+open RsslVerif.Lemmas.TArgClosed in
+example : scan 0 0 (toks (fmtTArgs sampleTArgs true)) = some 0 := by decide
+open RsslVerif.Lemmas.TArgClosed in
+example : (toks (fmtTArgs sampleTArgs true)).length = 26 := by decide
 
 /-- `sizeof((a >> a))` -/
 def sizeofShift : XExpr := .sizeof (.e (.bin .RightShift (.id "a") (.id "a")))
